@@ -178,6 +178,19 @@ CHECKS = {
         "note": "Trusted: documented semantics of np.linspace, astype(int), diff and (un)ravel_index; the small-model argument for mesh sizes "
         "<= 7 (guards compare k with 0 and size-1 only). Not decided: end-to-end operator equality under MPI execution.",
     },
+    "C19": {
+        "level": "proof",
+        "technique": "static: sympy identities (modulo Pythagorean ideals) on coordinate maps extracted by abstract interpretation; index-space typing of component order (grid axes + symmetric axes) versus coordinate-system order",
+        "text": "(a) For Cartesian 1-3d, polar, spherical, cylindrical, bipolar and bispherical coordinates the extracted _basis_rotation is proved "
+        "orthonormal with det +1 and equal to the normalised transposed Jacobian, the extracted _mapping_jacobian equal to the derivative of "
+        "the extracted _pos_to_cart, and the scale factors equal to the column norms. (b) One component order: the order used by operators "
+        "and name access (axes + symmetric axes) is computed per grid class and every subscript of a coordinate-ordered container by a "
+        "component index, and every einsum contracting component data with basis_rotation without re-indexing, is reported where the orders "
+        "differ (cylindrical grids); component naming sites all use axes + axes_symmetric.",
+        "note": "Trusted: CPython ast, sympy/Groebner reduction. Chart domains r>0, theta, sigma in (0, pi). One known finding is listed in "
+        "known_findings.json (GridBase._vector_to_cartesian on cylindrical grids; the repository's own test pins the wrong order). The "
+        "typing pass tracks indices produced by get_axis_index and parameters named `components` only.",
+    },
 }
 
 NOT_APPLICABLE: dict[str, str] = {}
